@@ -2,17 +2,23 @@
    MeasureClockOffsetIP against a scripted peer) are replayed against the model
    of the receive loop (Model/ClientAccept.v) and the property oracle C05_ok.
 
-   Case kind "ip.hist" / "scion.hist":
+   Case kinds "ip.hist" (client.MeasureClockOffsetIP), "scion.hist" (client.MeasureClockOffsetSCION, client
+   without packet authentication), "scion.auth" (SCIONClient with Auth.Enabled: DRKey host-host key, packet
+   authenticator), "scion.nts" / "scion.ntsauth" (NTS over SCION, without / with the packet authenticator),
+   "scion.allfail" / "scion.allfailauth" (calls in which no datagram is acceptable):
      args = cfg table ops
        cfg   = [scion imode nts deadline server server_ia local_ia local]
        table = [[key nonce ad ct ok pt] ...]   AEAD Open answers recomputed by the harness with miscreant
        ops   = [[0 [xchg ...] unused-scripts] | [1] | [2 ms] ...]     call / ResetInterleavedMode / pause (not modelled)
        xchg  = [[ref ctx1 uid s2c authkey oireq [ke-cookie ...]] [event ...] recipe]
                (ke-cookies: the cookies of the key exchange the client made for this exchange, if it made one)
-       event = [0 before xflags front payload crx from_server uid_ok auth_ok [cookie ...]] | [1 before]
-               (cookies: the ones the datagram carries in authenticated fields, computed by the harness with the key)
+       event = [0 before xflags front payload crx from_server uid_ok auth_ok [cookie ...] spao_ok] | [1 before]
+               (cookies: the ones the datagram carries in authenticated fields, computed by the harness with the key;
+                spao_ok = 0: the client holds the host-host key and the datagram carries, in an end-to-end extension,
+                an authenticator for the server's SPI and algorithm whose MAC does not verify)
        front = src (IP)  |  [decode_ok nlayers last len_ok src_ia dst_ia src_host dst_host e2e tsopt auth] (SCION;
-               hosts and tsopt: -1 = none; auth: 0 none, 1 MAC ok, 2 MAC wrong)
+               hosts and tsopt: -1 = none; auth: 0 no authenticator the client looks at, 1 MAC ok, 2 MAC wrong;
+               authkey in xchg: the client fetched the host-host key for this exchange)
      outs  = [[code off [[cls [org_s org_f rx_s rx_f tx_s tx_f] [t0 t1 t2 t3 off]] ...] [pool-cookie ...]] ...]   one per call
              (pool: the fetcher's cookie pool after the call, through the VerifData hook; empty without NTS)
    The model's AEAD is the table; a query that is not in the table poisons the case. *)
@@ -68,12 +74,13 @@ Fixpoint getBs (l : list value) : option (list bytes) :=
 (* an event and, for a datagram, the oracle's view of it and the cookies it carries authentically *)
 Definition parse_event (v : value) : option (event * option oview * list bytes) :=
   match v with
-  | VL [VZ 0; VZ before; VZ xf; fr; VB payload; VZ crx; VZ fs; VZ uo; VZ ao; VL cks] =>
+  | VL [VZ 0; VZ before; VZ xf; fr; VB payload; VZ crx; VZ fs; VZ uo; VZ ao; VL cks; VZ sp] =>
       match parse_front fr, getBs cks with
       | Some f, Some cs =>
           Some (EvDgram {| g_before := zb before; g_xflags := xf; g_front := f; g_payload := payload; g_crx := crx |},
-                Some {| o_from_server := zb fs; o_payload := payload; o_uid_ok := zb uo; o_auth_ok := zb ao |},
-                if zb fs && zb uo && zb ao then cs else [])
+                Some {| o_from_server := zb fs; o_payload := payload; o_uid_ok := zb uo; o_auth_ok := zb ao;
+                        o_spao_ok := zb sp |},
+                if zb fs && zb sp && zb uo && zb ao then cs else [])
       | _, _ => None
       end
   | VL [VZ 1; VZ before] => Some (EvErr (zb before), None, [])
@@ -252,7 +259,8 @@ Fixpoint calls_ok (nts : bool) (before : list bytes) (ops : list pop) (outs : li
   end.
 
 Definition glue_C05 (k : string) (a o : list value) : option verdict :=
-  if is k "ip.hist" || is k "scion.hist" || is k "scion.allfail" then
+  if is k "ip.hist" || is k "scion.hist" || is k "scion.allfail" || is k "scion.auth" || is k "scion.nts" ||
+     is k "scion.ntsauth" || is k "scion.allfailauth" then
     match a with
     | [cfgv; VL tabv; VL opsv] =>
         match parse_cfg cfgv, table_of tabv, parse_ops opsv with
